@@ -508,7 +508,7 @@ func init() {
 		Assumptions:   []string{"DESIGN §5.4 'Positions' is the location rule"},
 		MinNontrivial: 1000,
 		Run: func(c *core.Ctx) {
-			n := int64(c.Pick(40000, 800000))
+			n := int64(c.Pick(40000, 4000000))
 			for i := int64(0); i < n; i++ {
 				if !c.Mine(i) {
 					continue
